@@ -861,7 +861,7 @@ Module MdExamples.
 End MdExamples.
 
 (* ------------------------------------------------------------------ histories over several tables *)
-Definition target (i : minstr) : nat := match i with IAdd ti _ _ => ti | IDel ti _ _ => ti end.
+Definition target (i : minstr) : nat := match i with IAdd ti _ _ => ti | IDel ti _ _ => ti | IRead ti _ _ _ => ti end.
 
 Lemma mstep_length ts i : length (mstep ts i) = length ts.
 Proof. destruct i; simpl; apply upd_length. Qed.
@@ -881,3 +881,10 @@ Proof. intros H. simpl. apply nth_upd_eq. exact H. Qed.
 Lemma mstep_del_target_proof ts ti keys s : (ti < length ts)%nat ->
   nth ti (mstep ts (IDel ti keys s)) mt_empty = del_metadata (nth ti ts mt_empty) keys s.
 Proof. intros H. simpl. apply nth_upd_eq. exact H. Qed.
+
+(* a key that was materialised by a read (value None) is deleted like any other key *)
+Lemma del_after_read_proof ids md id k ks i : tmem k ks = true ->
+  aget (entry_of (del_axis (Some ks) (read_axis ids md id k)) i) k = None.
+Proof.
+  intros H. rewrite del_axis_lookup. simpl. rewrite H. reflexivity.
+Qed.
